@@ -509,7 +509,16 @@ def r5_temp_invisible(ctx):
                 if nm.rsplit('.', 1)[-1] in TEMP_CTORS:
                     s = kwarg(c, 'suffix')
                     suffixes.append((f, c, const_value(s) if s is not None else None))
-        ctx.floor('C03.R5', 'temporary-file constructor calls in the local backend', len(suffixes))
+        if not suffixes:
+            up = corpus.method(ci, 'upload') or next(iter(ci.methods.values()))
+            ctx.fail(
+                'C03.R5',
+                f'{func_label(up)}|temporary-name-unique',
+                loc(up, up.node),
+                f'{ci.name}: no temporary file is created through tempfile (NamedTemporaryFile / mkstemp): hand-made temporary names are not unique per writer - '
+                'two concurrent uploads of the same object (threads of one process, or processes) share one temporary file and a half-written one can be published',
+            )
+            continue
         lf = corpus.method(ci, 'list_files')
         if lf is None:
             raise AnalysisError('C03.R5: list_files missing')
@@ -644,9 +653,13 @@ def _defs_of(fi, name):
 
 
 def run(ctx):
+    from ..report import Relabel
+    from .c12 import r2_rewind
     from .c13 import r7_exists_answer
 
     r7_exists_answer(ctx, rule='C03.R6')
+    # a failed attempt that is retried must not publish a truncated object: the source is rewound on every failure path
+    r2_rewind(Relabel(ctx, 'C03.R4'), rule='C03.R4')
     r1_snapshot_last(ctx)
     r2_delete_order(ctx)
     r3_no_swallow(ctx)
